@@ -1506,10 +1506,35 @@ def atan2_rule(angles, positives):
                         return u
                     if (y + p * su).is_zero() and (x + p * cu).is_zero():
                         return u + pi
+                # the common factor k of (y, x) = k (sin u, cos u), whatever it is made of: positive when it is a positive constant times
+                # powers of the positive quantities (a point normalised by its radius, scaled by a radius squared ...)
+                k = y * su + x * cu                   # = k (sin^2 + cos^2)
+                if (y - k * su).is_zero() and (x - k * cu).is_zero() and not k.is_zero():
+                    sg = _sign_by_positives(k, positives)
+                    if sg is not None:
+                        return u if sg > 0 else u + pi
             except Unsupported:
                 continue
         return F.fn("atan2", y, x)
     return rule
+
+
+def _sign_by_positives(k, positives):
+    """+1 / -1 when k is a positive / negative constant times integer powers (-2 .. 2) of the positive quantities, else None"""
+    import itertools
+    ps = list(positives)[:3]
+    for es in sorted(itertools.product(range(-2, 3), repeat=len(ps)), key=lambda e: sum(abs(i) for i in e)):
+        q = k
+        try:
+            for p, e in zip(ps, es):
+                for _ in range(abs(e)):
+                    q = q / p if e > 0 else q * p
+        except (Unsupported, ZeroDivisionError):
+            continue
+        c = const_of(q)
+        if c is not None and c != 0:
+            return 1 if c > 0 else -1
+    return None
 
 
 def linear_in(v, syms):
